@@ -119,26 +119,30 @@ theorem maskedLoss_bind_indep {β : Type} (ls : List Nat) (l1 l2 : Nat → K) (m
       simp only []
       split_ifs <;> rfl
 
-/-! ### ncc_loss with a mask (F-16b) -/
+/-! ### ncc_loss with a mask (repaired, PENDING-F16BD) -/
 
-/-- `ncc_loss(mask=…)` fails for every mask that has at least one spatial dimension, whatever the
-    images, `eps` and reduction. -/
-theorem nccLoss_mask_error (red : Reduction) (x y m : T K) (eps : K) (hm : 3 ≤ m.shape.length) :
-    ∃ e, nccLoss red x y (some m) eps = .error e := by
-  unfold nccLoss nccPrep
-  by_cases hs : x.shape ≠ y.shape
-  · exact ⟨"err:value:shape", by simp [hs, finish, Except.map, bind, Except.bind, throw, throwThe, MonadExceptOf.throw]⟩
-  · obtain ⟨m0, m1, m2, mrest, hsh⟩ : ∃ m0 m1 m2 mrest, m.shape = m0 :: m1 :: m2 :: mrest := by
-      match hmm : m.shape, hm with
-      | m0 :: m1 :: m2 :: mrest, _ => exact ⟨m0, m1, m2, mrest, rfl⟩
-    obtain ⟨e, he⟩ := maskedLossCheck_reduced_fails (x.shape.headD 0) m0 m1 m2 mrest
-    refine ⟨e, ?_⟩
-    simp only [hs, if_false, maskedLoss, hsh, he, bind, Except.bind, finish, Except.map]
+/-- the four documented/broadcastable mask shapes pass the checks of `masked_loss` against the image shape. -/
+theorem maskedLossCheck_documented (N C : Nat) (sp : List Nat) (n0 c0 : Nat)
+    (hn : n0 = 1 ∨ n0 = N) (hc : c0 = 1 ∨ c0 = C) :
+    maskedLossCheck (N :: C :: sp) (n0 :: c0 :: sp) = .ok () := by
+  unfold maskedLossCheck
+  rcases hn with rfl | rfl <;> rcases hc with rfl | rfl <;> simp
+
+/-- with a mask that passes those checks, `ncc_loss` evaluates the weighted item score on the broadcast mask. -/
+theorem nccPrep_mask (x y m : T K) (eps : K) (h : x.shape = y.shape)
+    (hm : maskedLossCheck x.shape m.shape = .ok ()) (hl : m.shape.length = x.shape.length) :
+    nccPrep x y (some m) eps
+      = .ok (x.shape.headD 0,
+          nccNoneM (prod (x.shape.drop 1)) x.data y.data (fun i => 1 * expandAs x.shape m i) eps, none) := by
+  unfold nccPrep
+  simp only [h, ne_eq, not_true_eq_false, if_false, maskedLoss, bind, Except.bind, pure, Except.pure]
+  rw [← h, hm]
+  simp only [hl, not_true_eq_false, if_false, getM_memoArr, Nat.cast_one]
 
 /-! ### mutual information: wrapper level symmetry -/
 
 theorem miPrep_swap (x y : T K) (mask : Option (T K)) (B : Nat) (h : x.shape = y.shape) :
-    miPrep y x mask B = (miPrep x y mask B).map (fun r => (r.1, r.2.1, r.2.2.2, r.2.2.1)) := by
+    miPrep y x mask B = (miPrep x y mask B).map (fun r => (r.1, r.2.1, r.2.2.2.1, r.2.2.1, r.2.2.2.2)) := by
   unfold miPrep
   simp only [h, ne_eq, not_true_eq_false, if_false, bind, Except.bind, pure, Except.pure]
   split_ifs <;> try rfl
@@ -152,7 +156,7 @@ theorem miLoss_symm (win : K → K → K) (lg : K → K) (tiny : K) (nz : Bool) 
   cases miPrep x y mask B with
   | error e => rfl
   | ok r =>
-    obtain ⟨N, S, xm, ym⟩ := r
+    obtain ⟨N, S, xm, ym, m⟩ := r
     simp only [Except.map, bind, Except.bind, pure, Except.pure]
     rw [miLossCore_symm]
 
